@@ -198,11 +198,15 @@ def cases(pid, obs):
         out.append("7 %d %d" % (obs.get("panics_in_log", 0), 1 if obs.get("alive_at_end") else 0))
     if pid == "C08" and "http" in obs:
         # kind 20: client class (1 = first matching rule grants http-ro, 0 = it does not), path code, status
-        klass = {"127.0.0.1": 1, "127.0.0.2": 0, "127.0.0.4": 0, "::1": 1}
+        # what the FIRST matching rule of the rig's acls grants each client; what each path needs (http.rs)
+        ro = {"http", "http-metrics", "http-leases"}
+        grants = {"127.0.0.1": ro, "::1": ro, "127.0.0.2": set(), "127.0.0.4": set(),
+                  "127.0.0.5": {"http"}, "127.0.0.6": {"http", "http-metrics"}}
+        needs = {"/": "http", "/metrics": "http-metrics", "/api/v1/leases.json": "http-leases", "/nonexistent": "http-leases"}
         pcode = {"/": 0, "/metrics": 1, "/api/v1/leases.json": 2, "/nonexistent": 3}
         for r in obs["http"].get("requests", []):
             st = r["status"] if isinstance(r["status"], int) else 0
-            out.append("20 %d %d %d" % (klass[r["src"]], pcode[r["path"]], st))
+            out.append("20 %d %d %d" % (1 if needs[r["path"]] in grants[r["src"]] else 0, pcode[r["path"]], st))
     if pid == "C07" and "dns" in obs:
         # kind 30: which listener (1 v4-only, 2 second v4 address, 3 v6), got reply, reply source == query destination, id echoed
         code = {"forward-v4only": 1, "forward-second-address": 2, "forward-v6": 3}
